@@ -9,7 +9,7 @@ Three theorems about the rule table regenerated from compiler.go on every run:
 * `rule_sound` — every rule replaces its window by an instruction with the same effect on the
   machine state **and the same failure behaviour**, for all operand values, all stacks, all heaps
   and all call behaviours (values, heap and calls are abstract);
-* `rule_pos` — the fused instruction carries the source position of the window's first
+* `rule_pos` — the fused instruction carries the source position of the window's LAST
   instruction;
 * `opt_stable` — after the two passes of `optimize` no rule fires anywhere, so re-optimising an
   enclosing block (which the compiler does after computing jump distances over the inner block)
@@ -111,7 +111,7 @@ theorem sound_local_arith (opn fused : String)
     (hop : (opn = "ADD" ∧ fused = "LOCALADD") ∨ (opn = "SUB" ∧ fused = "LOCALSUB") ∨
            (opn = "MUL" ∧ fused = "LOCALMUL") ∨ (opn = "DIV" ∧ fused = "LOCALDIV")) :
     Sound P call { lhs := ["LOCALGET", "LOCALGET", opn], guards := [], rhs := fused,
-                   a := .fld 0 .A, b := .fld 1 .A, c := .none, pos := 0 } := by
+                   a := .fld 0 .A, b := .fld 1 .A, c := .none, pos := 2 } := by
   intro w σ h _
   obtain ⟨i, j, k, X, rfl, hi, hj, hk, -⟩ := window3 rfl h
   simp only [List.length_cons, List.length_nil, List.take_succ_cons, List.take_zero, run, build, srcVal, Instr.fld]
@@ -122,7 +122,7 @@ theorem sound_local_arith (opn fused : String)
 
 theorem sound_localincdec (L : PrimLaws P) :
     Sound P call { lhs := ["LOCALGET", "INCDEC", "LOCALSET"], guards := [.eqf 0 .A 2 .A], rhs := "LOCALINCDEC",
-                   a := .fld 0 .A, b := .fld 1 .A, c := .none, pos := 0 } := by
+                   a := .fld 0 .A, b := .fld 1 .A, c := .none, pos := 2 } := by
   intro w σ h _
   obtain ⟨i, j, k, X, rfl, hi, hj, hk, hg⟩ := window3 rfl h
   simp [guardOk, Instr.fld] at hg
@@ -139,7 +139,7 @@ theorem sound_localincdec (L : PrimLaws P) :
 
 theorem sound_fastget :
     Sound P call { lhs := ["LOCALGET", "CONST", "GET"], guards := [], rhs := "FASTGET",
-                   a := .fld 0 .A, b := .fld 1 .A, c := .none, pos := 0 } := by
+                   a := .fld 0 .A, b := .fld 1 .A, c := .none, pos := 2 } := by
   intro w σ h _
   obtain ⟨i, j, k, X, rfl, hi, hj, hk, -⟩ := window3 rfl h
   simp only [List.length_cons, List.length_nil, List.take_succ_cons, List.take_zero, run, build, srcVal, Instr.fld]
@@ -148,7 +148,7 @@ theorem sound_fastget :
 
 theorem sound_fastset :
     Sound P call { lhs := ["LOCALGET", "CONST", "SET"], guards := [], rhs := "FASTSET",
-                   a := .fld 0 .A, b := .fld 1 .A, c := .none, pos := 0 } := by
+                   a := .fld 0 .A, b := .fld 1 .A, c := .none, pos := 2 } := by
   intro w σ h _
   obtain ⟨i, j, k, X, rfl, hi, hj, hk, -⟩ := window3 rfl h
   simp only [List.length_cons, List.length_nil, List.take_succ_cons, List.take_zero, run, build, srcVal, Instr.fld]
@@ -157,7 +157,7 @@ theorem sound_fastset :
 
 theorem sound_fastgetint (L : PrimLaws P) :
     Sound P call { lhs := ["LOCALGET", "PUSH", "GET"], guards := [], rhs := "FASTGETINT",
-                   a := .fld 0 .A, b := .fld 1 .A, c := .none, pos := 0 } := by
+                   a := .fld 0 .A, b := .fld 1 .A, c := .none, pos := 2 } := by
   intro w σ h _
   obtain ⟨i, j, k, X, rfl, hi, hj, hk, -⟩ := window3 rfl h
   simp only [List.length_cons, List.length_nil, List.take_succ_cons, List.take_zero, run, build, srcVal, Instr.fld]
@@ -166,7 +166,7 @@ theorem sound_fastgetint (L : PrimLaws P) :
 
 theorem sound_fastsetint (L : PrimLaws P) :
     Sound P call { lhs := ["LOCALGET", "PUSH", "SET"], guards := [], rhs := "FASTSETINT",
-                   a := .fld 0 .A, b := .fld 1 .A, c := .none, pos := 0 } := by
+                   a := .fld 0 .A, b := .fld 1 .A, c := .none, pos := 2 } := by
   intro w σ h _
   obtain ⟨i, j, k, X, rfl, hi, hj, hk, -⟩ := window3 rfl h
   simp only [List.length_cons, List.length_nil, List.take_succ_cons, List.take_zero, run, build, srcVal, Instr.fld]
@@ -175,7 +175,7 @@ theorem sound_fastsetint (L : PrimLaws P) :
 
 theorem sound_fastcallattr :
     Sound P call { lhs := ["LOCALGET", "GETATTR", "CALL"], guards := [], rhs := "FASTCALLATTR",
-                   a := .fld 0 .A, b := .fld 1 .A, c := .join 2 .A 2 .B, pos := 0 } := by
+                   a := .fld 0 .A, b := .fld 1 .A, c := .join 2 .A 2 .B, pos := 2 } := by
   intro w σ h hs
   obtain ⟨i, j, k, X, rfl, hi, hj, hk, -⟩ := window3 rfl h
   have hk' := hs k (by simp)
@@ -187,7 +187,7 @@ theorem sound_fastcallattr :
 
 theorem sound_fastcall :
     Sound P call { lhs := ["GLOBALGET", "CALL"], guards := [], rhs := "FASTCALL",
-                   a := .fld 0 .A, b := .fld 1 .A, c := .fld 1 .B, pos := 0 } := by
+                   a := .fld 0 .A, b := .fld 1 .A, c := .fld 1 .B, pos := 1 } := by
   intro w σ h _
   obtain ⟨i, j, X, rfl, hi, hj, -⟩ := window2 rfl h
   simp only [List.length_cons, List.length_nil, List.take_succ_cons, List.take_zero, run, build, srcVal, Instr.fld]
@@ -195,7 +195,7 @@ theorem sound_fastcall :
 
 theorem sound_fastgetattr :
     Sound P call { lhs := ["LOCALGET", "GETATTR"], guards := [], rhs := "FASTGETATTR",
-                   a := .fld 0 .A, b := .fld 1 .A, c := .none, pos := 0 } := by
+                   a := .fld 0 .A, b := .fld 1 .A, c := .none, pos := 1 } := by
   intro w σ h _
   obtain ⟨i, j, X, rfl, hi, hj, -⟩ := window2 rfl h
   simp only [List.length_cons, List.length_nil, List.take_succ_cons, List.take_zero, run, build, srcVal, Instr.fld]
@@ -204,7 +204,7 @@ theorem sound_fastgetattr :
 
 theorem sound_fastsetattr :
     Sound P call { lhs := ["LOCALGET", "SETATTR"], guards := [], rhs := "FASTSETATTR",
-                   a := .fld 0 .A, b := .fld 1 .A, c := .none, pos := 0 } := by
+                   a := .fld 0 .A, b := .fld 1 .A, c := .none, pos := 1 } := by
   intro w σ h _
   obtain ⟨i, j, X, rfl, hi, hj, -⟩ := window2 rfl h
   simp only [List.length_cons, List.length_nil, List.take_succ_cons, List.take_zero, run, build, srcVal, Instr.fld]
@@ -213,7 +213,7 @@ theorem sound_fastsetattr :
 
 theorem sound_push_add :
     Sound P call { lhs := ["PUSH", "ADD"], guards := [], rhs := "INCDEC",
-                   a := .fld 0 .A, b := .none, c := .none, pos := 0 } := by
+                   a := .fld 0 .A, b := .none, c := .none, pos := 1 } := by
   intro w σ h _
   obtain ⟨i, j, X, rfl, hi, hj, -⟩ := window2 rfl h
   simp only [List.length_cons, List.length_nil, List.take_succ_cons, List.take_zero, run, build, srcVal, Instr.fld]
@@ -222,7 +222,7 @@ theorem sound_push_add :
 
 theorem sound_push_sub (L : PrimLaws P) :
     Sound P call { lhs := ["PUSH", "SUB"], guards := [], rhs := "INCDEC",
-                   a := .neg 0 .A, b := .none, c := .none, pos := 0 } := by
+                   a := .neg 0 .A, b := .none, c := .none, pos := 1 } := by
   intro w σ h _
   obtain ⟨i, j, X, rfl, hi, hj, -⟩ := window2 rfl h
   simp only [List.length_cons, List.length_nil, List.take_succ_cons, List.take_zero, run, build, srcVal, Instr.fld]
@@ -265,13 +265,25 @@ theorem rule_sound (P : Prims V H) (L : PrimLaws P) (call : CallSem V H) :
   · exact sound_push_sub P call L
   · exact sound_jump0 P call
 
-/-- **rule_pos.** The fused instruction is stamped with the position of the window's first
-    instruction (so an error is reported on the line where the fused expression starts). -/
-theorem rule_pos : ∀ r ∈ rules, r.pos = 0 := by decide
+/-- **rule_pos.** The fused instruction is stamped with the position of the window's LAST
+    instruction: the operator (GET, SET, CALL, ADD, …) that can fail at run time, after operand loads
+    that cannot — so an error names the same line with the optimizer on or off, also when the
+    statement is wrapped over several lines. -/
+theorem rule_pos : ∀ r ∈ rules, r.pos + 1 = r.lhs.length := by decide
 
-theorem build_pos (r : Gen.Rule) (hr : r ∈ rules) (i : Instr) (X : List Instr) :
-    (build r (i :: X)).pos = i.pos := by
-  simp [build, rule_pos r hr]
+theorem fires_length {r : Gen.Rule} {w : List Instr} (h : fires r w = true) : r.lhs.length ≤ w.length := by
+  simp only [fires, Bool.and_eq_true, beq_iff_eq] at h
+  have := congrArg List.length h.1
+  simp only [opsOf, List.length_map, List.length_take] at this
+  omega
+
+theorem build_pos (r : Gen.Rule) (hr : r ∈ rules) (w : List Instr) (h : fires r w = true) :
+    ∃ i, w[r.lhs.length - 1]? = some i ∧ (build r w).pos = i.pos := by
+  have hp := rule_pos r hr
+  have hl := fires_length h
+  have hlt : r.lhs.length - 1 < w.length := by omega
+  have e : r.pos = r.lhs.length - 1 := by omega
+  exact ⟨w[r.lhs.length - 1], by simp [hlt], by simp [build, e, hlt]⟩
 
 /-- **opt_stable.** After the two passes of `optimize`, a further pass changes nothing. -/
 theorem opt_stable (l : List Instr) : doOpt rules (optimize l) = optimize l := by
